@@ -30,8 +30,11 @@ def ident(r, avoid=(), type_name=False):
             continue
         if BUILTIN_RE.match(n):
             continue
-        if type_name and (K4_RE.match(n)):
-            continue
+        if type_name and r.random() < 0.08:
+            # user types whose names begin with a builtin type token (formerly known finding K4)
+            n = r.choice(["u8x", "i2c_state", "stream_cfg", "string", "f32vec", "structure", "u1a", "str_", "f64_", "i16le"]) + r.choice(["", "", "_t", "2"])
+            if n in avoid:
+                continue
         # 'struct' as a *type* name is K4 ('str' + 'uct'); as other names it is fine
         return n
     raise RuntimeError("no fresh identifier")
